@@ -18,7 +18,7 @@ CheckEdit(DS, r) ==
              \* source presents entries in a defined order
              uno == IF r.srcordered THEN UnorderedOf(r.post)
                     ELSE UnorderedOf(r.post) \cup DOMAIN S.ord
-         IN IF ~WellFormed(DS, T) THEN "ok"  \* state already corrupted by an earlier, reported step
+         IN IF ~WellFormed(DS, NormEmpty(T)) THEN "ok"  \* state already corrupted by an earlier, reported step
             ELSE IF r.res.err = "panic" THEN "panic"
             \* a payload that names one list entry twice (same key, same content): inserting it must
             \* fail - the second entry finds the first; upserting it is the upsert of the payload
@@ -31,8 +31,8 @@ CheckEdit(DS, r) ==
                             [] OTHER -> "harness-unknown-op"
                  IN IF c # "ok" THEN c
                     ELSE IF ~KeysUnique(post) THEN "duplicate-keys"
-                    ELSE IF ~OneCase(DS, post) THEN "two-cases-hold-data"
-                    ELSE IF ~WellFormed(DS, post) THEN "post-not-wellformed"
+                    ELSE IF ~OneCase(DS, NormEmpty(post)) THEN "two-cases-hold-data"
+                    ELSE IF ~WellFormed(DS, NormEmpty(post)) THEN "post-not-wellformed"
                     ELSE "ok"
 
 \* after an operation: every container, list and entry the store holds is found under its
